@@ -321,3 +321,13 @@ _R10 = {
 for _k, _t in _R10.items():
     if _k in CHECKS:
         CHECKS[_k]['text'] = CHECKS[_k]['text'].rstrip() + _t
+
+# ---- late additions (rounds 10-12)
+_R12 = {
+    'C04': ' norm is evaluated on constant-vector witnesses (the zero vector included: a norm that scales by the largest magnitude divides 0 by 0 there).',
+    'C07': ' trapezoid-nodes: the iterator trapz sums over is counted on exact (a, b, n) witnesses, rounding-sensitive panel counts included (n - 1 interior nodes).',
+    'C14': ' row-length: every row of vandermonde receives exactly n entries for n = 1, 2, 3, 4, 7 (pushes per iteration of the row loop counted).',
+}
+for _k, _t in _R12.items():
+    if _k in CHECKS:
+        CHECKS[_k]['text'] = CHECKS[_k]['text'].rstrip() + _t
